@@ -88,26 +88,43 @@ func c07r1(c *Ctx, id string) {
 		}
 	}
 	gateOAE(c, id, oi)
-	wait := w.Method("couchbase", oi.typ.Obj().Name(), "waitRollbackMitigation")
-	c.need(wait != nil, id, "observer.waitRollbackMitigation")
-	// wait loop
-	c.see(wait)
 	chk := w.Method("couchbase", oi.typ.Obj().Name(), "checkPersistSeqNo")
 	c.need(chk != nil, id, "observer.checkPersistSeqNo")
+	// the wait loop: every edge leaving the loop that polls checkPersistSeqNo is the true edge of that test
+	var wait *ssa.Function
+	for _, fn := range w.ModFuncs {
+		cyc := cycleBlocks(fn)
+		allInstrs(fn, func(in ssa.Instruction) {
+			if cc := callOf(in); cc != nil && cc.StaticCallee() == chk && cyc[in.Block()] {
+				wait = fn
+			}
+		})
+	}
+	c.need(wait != nil, id, "a loop polling checkPersistSeqNo")
+	c.see(wait)
+	cyc := cycleBlocks(wait)
 	okExit, exits := true, 0
-	allInstrs(wait, func(in ssa.Instruction) {
-		switch in.(type) {
-		case *ssa.Return, *ssa.Panic:
+	for b := range cyc {
+		for k, s := range b.Succs {
+			if cyc[s] {
+				continue
+			}
 			exits++
-			if !guardedBy(in.Block(), true, func(v ssa.Value) bool {
-				call, ok := v.(*ssa.Call)
-				return ok && call.Common().StaticCallee() == chk && w.Origin(call.Common().Args[1]) == "param("+wait.Params[1].Name()+")"
-			}) {
+			ifi, isIf := b.Instrs[len(b.Instrs)-1].(*ssa.If)
+			ok := false
+			if isIf {
+				v, pol := stripNot(ifi.Cond, k == 0)
+				if call, isCall := v.(*ssa.Call); isCall && pol && call.Common().StaticCallee() == chk {
+					arg := w.Origin(call.Common().Args[1])
+					ok = strings.HasPrefix(arg, "param(")
+				}
+			}
+			if !ok {
 				okExit = false
 			}
 		}
-	})
-	c.Check(okExit && exits > 0, id, "wait-exit@"+fname(wait), wait.Pos(), "the wait returns only after checkPersistSeqNo(seqNo)=true", "the wait loop has an exit that is not guarded by checkPersistSeqNo(seqNo)=true")
+	}
+	c.Check(okExit && exits > 0, id, "wait-exit@"+fname(wait), wait.Pos(), "the wait loop is left only when checkPersistSeqNo(seqNo)=true", "the wait loop has an exit that is not the true edge of checkPersistSeqNo(seqNo)")
 	c.Floor(id, 12)
 }
 
@@ -397,22 +414,45 @@ func c07r6(c *Ctx, id string) {
 	}
 }
 
-// gateOAE evaluates canForward exhaustively (shared by C07.R1, C08.R5, C03.R2).
+// gateOAE evaluates canForward exhaustively (shared by C07.R1, C08.R5, C03.R2, C13.R7). The persistence wait
+// may be a method of its own or a loop inside the gate; in both cases it is recognised by the persistence
+// test (checkPersistSeqNo) it polls.
 func gateOAE(c *Ctx, id string, oi *obsInfo) {
 	w := c.W
-	// canForward itself
 	gate := oi.gate
 	recv := gate.Params[0].Name()
 	seqP, ctlP := gate.Params[1].Name(), gate.Params[2].Name()
 	dis := recv + ".config.RollbackMitigation.Disabled"
-	wait := w.Method("couchbase", oi.typ.Obj().Name(), "waitRollbackMitigation")
+	chk := w.Method("couchbase", oi.typ.Obj().Name(), "checkPersistSeqNo")
 	need := w.Method("couchbase", oi.typ.Obj().Name(), "needCatchup")
-	c.need(wait != nil && need != nil, id, "observer.waitRollbackMitigation / needCatchup")
+	c.need(chk != nil && need != nil, id, "observer.checkPersistSeqNo / needCatchup")
+	// the function that polls the persistence test in a loop
+	var wait *ssa.Function
+	for _, fn := range w.ModFuncs {
+		cyc := cycleBlocks(fn)
+		allInstrs(fn, func(in ssa.Instruction) {
+			if cc := callOf(in); cc != nil && cc.StaticCallee() == chk && cyc[in.Block()] {
+				wait = fn
+			}
+		})
+	}
+	c.need(wait != nil, id, "a loop polling checkPersistSeqNo (the rollback-mitigation wait)")
+	noinl := map[string]bool{fname(need): true, fname(chk): true}
+	if wait != gate {
+		noinl[fname(wait)] = true
+	}
+	waitName := fname(wait)
+	if wait == gate {
+		waitName = fname(chk)
+	}
 	h := &Harness{Fn: gate, Bools: []string{dis, ctlP, "need"}, Groups: []Group{{Atoms: []string{seqP}, Unsigned: true}},
-		NoInline: map[string]bool{fname(wait): true, fname(need): true},
+		NoInline: noinl, Quiet: []string{"time.Sleep"},
 		Oracle: func(st *State, name string, args []AV, res *types.Tuple) ([]AV, bool) {
-			if name == fname(need) {
+			switch name {
+			case fname(need):
 				return []AV{avBool{st.B("need")}}, true
+			case fname(chk):
+				return []AV{avBool{true}}, true // persisted: the loop is left at once
 			}
 			return nil, false
 		}}
@@ -423,9 +463,11 @@ func gateOAE(c *Ctx, id string, oi *obsInfo) {
 		nw, nn := 0, 0
 		firstWait, firstNeed := -1, -1
 		for i, e := range out.Trace {
-			if e.Name == fname(wait) {
+			if e.Name == waitName {
 				nw++
-				firstWait = i
+				if firstWait < 0 {
+					firstWait = i
+				}
 				if len(e.Args) != 2 || avString(e.Args[1]) != seqP {
 					return "waits for something else than the event's sequence number: " + e.String()
 				}
@@ -439,7 +481,7 @@ func gateOAE(c *Ctx, id string, oi *obsInfo) {
 			}
 		}
 		if st.B(dis) != (nw == 0) || nw > 1 {
-			return fmt.Sprintf("waits %d times with Disabled=%v", nw, st.B(dis))
+			return fmt.Sprintf("persistence wait entered %d times with Disabled=%v", nw, st.B(dis))
 		}
 		if nw == 1 && nn == 1 && firstNeed < firstWait {
 			return "catch-up filter consulted before the persistence wait"
